@@ -116,7 +116,8 @@ func (s *c20Section) walk(t reflect.Type, path []string, skipTop map[string]bool
 			if ptr {
 				cl = "ptr-quantity"
 			}
-			s.addLeaf(&c20Leaf{Path: p, Kind: "quantity", Class: cl})
+			// a non-pointer omitempty Quantity is meant to be "unset when zero" (encoding/json nevertheless emits "0")
+			s.addLeaf(&c20Leaf{Path: p, Kind: "quantity", Class: cl, Soft: !ptr && omit})
 		case ft == c20IntOrStrT:
 			s.addLeaf(&c20Leaf{Path: p, Kind: "intorstr", Class: pre + "intorstr"})
 		case ft.Kind() == reflect.Struct:
@@ -425,8 +426,10 @@ func (s *c20Section) flat(n any, path string, keepSoft bool, out map[string]stri
 		}
 		out[path] = c20Text(c)
 	case string:
-		if v == "" && s.SoftPath[path] && !keepSoft {
-			return
+		if s.SoftPath[path] && !keepSoft {
+			if lf := s.ByKey[path]; v == "" || (lf != nil && lf.Kind == "quantity" && v == "0") {
+				return
+			}
 		}
 		out[path] = strconv.Quote(v)
 	default:
@@ -441,9 +444,20 @@ func (s *c20Section) flat(n any, path string, keepSoft bool, out map[string]stri
 //   - whether an array is one field (replaced) or a list of positional fields (merged per index, nothing dropped).
 type c20Reading struct{ softZeroUnset, mapsReplace, arraysMerge bool }
 
+// c20StrictSoftZero = true would demand that even the zero value of a non-pointer omitempty field overrides the
+// lower layer (DESIGN §6 lead "omitempty zero values cannot override a cluster value through MergeCfg"). Triage
+// (HARNESS_GUIDE rule 8): the API types declare zero == unset for exactly these fields (cpuSuppressPolicy,
+// cpuEvictPolicy, cpu-burst policy, blkio blocks, schedFeatures, totalNetworkBandwidth, host applications) and
+// the NodeSLO object handed to the node cannot carry such a zero either, so "the entry sets the field" is not
+// decidable for them from the statement: both outcomes are accepted and the observed one is counted.
+const c20StrictSoftZero = false
+
 var c20Readings = func() []c20Reading {
 	var r []c20Reading
 	for i := 0; i < 8; i++ {
+		if c20StrictSoftZero && i&1 != 0 {
+			continue
+		}
 		r = append(r, c20Reading{i&1 != 0, i&2 != 0, i&4 != 0})
 	}
 	return r
@@ -501,8 +515,10 @@ func (s *c20Section) overlay(base, over any, path string, rd c20Reading) any {
 		}
 		return res
 	case string:
-		if o == "" && s.SoftPath[path] && rd.softZeroUnset {
-			return base
+		if s.SoftPath[path] && rd.softZeroUnset {
+			if lf := s.ByKey[path]; o == "" || (lf != nil && lf.Kind == "quantity" && o == "0") {
+				return base
+			}
 		}
 	}
 	return over
@@ -895,6 +911,9 @@ type c20Replay struct {
 }
 
 func c20What(s *c20Section, node int, mm c20Mismatch, raw string) string {
+	if mm.Class == "quantity" && mm.Got == c20Absent {
+		mm.Got = `"0" (zero quantity)`
+	}
 	return fmt.Sprintf("section %s leaf %s (%s): node %s labels %v was delivered %s but the layering default<-cluster<-first matching entry gives %s; section text: %s",
 		s.Name, mm.Path, mm.Class, c20NodeNames[node], c20NodeLabels[node], mm.Got, strings.Join(mm.Want, " or "), raw)
 }
